@@ -189,7 +189,9 @@ theorem serializeVariant_get {fs : BL} {types offs cur : List Int} {idx : Nat} {
     · simp [panic] at h
     · split at h
       · simp [fail] at h
-      · cases h; exact ⟨m, hget⟩
+      · split at h
+        · simp [fail] at h
+        · cases h; exact ⟨m, hget⟩
 
 /-- one row of a union: bookkeeping + the variant's child -/
 theorem union_row_PX {p fs types offs cur} {i : Nat} {pc : B → R B} {b' : B}
